@@ -191,17 +191,30 @@ where
                 rx,
                 connector,
                 Some(connection),
+                false,
                 &inner.config,
             );
         }
 
         trace!("checkout interested in pooled connections");
-        inner.waiting.entry(token).or_default().push_back(tx);
+        let waits_for_connecting = inner.connecting.contains(&token);
+        inner.waiting.entry(token).or_default().push_back(Waiter {
+            sender: tx,
+            waits_for_connecting,
+        });
 
-        if inner.connecting.contains(&token) {
+        if waits_for_connecting {
             trace!("connection in progress elsewhere, will wait");
             connector = None;
-            Checkout::new(token, self.as_ref(), rx, connector, None, &inner.config)
+            Checkout::new(
+                token,
+                self.as_ref(),
+                rx,
+                connector,
+                None,
+                false,
+                &inner.config,
+            )
         } else {
             if multiplex {
                 // Only block new connection attempts if we can multiplex on this one.
@@ -209,7 +222,15 @@ where
                 inner.connecting.insert(token);
             }
             trace!("connecting to host");
-            Checkout::new(token, self.as_ref(), rx, connector, None, &inner.config)
+            Checkout::new(
+                token,
+                self.as_ref(),
+                rx,
+                connector,
+                None,
+                multiplex,
+                &inner.config,
+            )
         }
     }
 }
@@ -235,7 +256,7 @@ where
                 waiting: inner
                     .waiting
                     .get(&token)
-                    .map(|w| w.iter().map(|tx| tx.is_closed()).collect())
+                    .map(|w| w.iter().map(|w| w.sender.is_closed()).collect())
                     .unwrap_or_default(),
                 idle: inner
                     .idle
@@ -333,6 +354,20 @@ where
     }
 }
 
+/// A checkout waiting for a connection to be returned to the pool.
+#[derive(Debug)]
+struct Waiter<C, B>
+where
+    C: PoolableConnection<B>,
+    B: Send + 'static,
+{
+    sender: Sender<Pooled<C, B>>,
+
+    /// This checkout has no connector of its own: it relies on the connection
+    /// attempt which was in progress when it was created.
+    waits_for_connecting: bool,
+}
+
 #[derive(Debug)]
 pub(in crate::client) struct PoolInner<C, B>
 where
@@ -342,7 +377,7 @@ where
     config: Config,
 
     connecting: HashSet<Token>,
-    waiting: HashMap<Token, VecDeque<Sender<Pooled<C, B>>>>,
+    waiting: HashMap<Token, VecDeque<Waiter<C, B>>>,
 
     idle: HashMap<Token, IdleConnections<C, B>>,
 }
@@ -365,6 +400,13 @@ where
         let existed = self.connecting.remove(&token);
         if existed {
             trace!("pending connection cancelled");
+        }
+
+        // Checkouts which were told to wait for this connection attempt have no way to
+        // connect on their own. Release them, so that they resolve with an error
+        // instead of waiting forever.
+        if let Some(waiters) = self.waiting.get_mut(&token) {
+            waiters.retain(|waiter| !waiter.waits_for_connecting);
         }
     }
 }
@@ -394,7 +436,7 @@ where
         if let Some(waiters) = self.waiting.get_mut(&token) {
             trace!(waiters=%waiters.len(), ?token, "walking waiters");
 
-            while let Some(waiter) = waiters.pop_front() {
+            while let Some(Waiter { sender: waiter, .. }) = waiters.pop_front() {
                 if waiter.is_closed() {
                     trace!("skipping closed waiter");
                     continue;
